@@ -496,6 +496,14 @@ func main() {
 							exit[cls] = true
 						}
 					}
+				case *ssa.Panic:
+					// an explicit panic (the documented reaction to invalid arguments) with a lock held and no deferred Unlock:
+					// an application that recovers it is left with the mutex locked
+					for cls := range h {
+						if !deferred[cls] && entry[cls] == false {
+							res.LeftHeld = append(res.LeftHeld, fmt.Sprintf("%s panics at %s holding %s", f.String(), pos(x.Pos()), cls))
+						}
+					}
 				}
 				c, ok := ins.(ssa.CallInstruction)
 				if !ok {
